@@ -96,6 +96,18 @@ CLAIMED = {
               'real LASRead, which must return the content; plus seeded random contents up to 40 curves x 300 frames.'),
         note='Trusts TLC and the harness renderer; content pools avoid texts whose typed reading is ambiguous; NULL = -999.25.',
         technique='TLA+ spec + TLC model checking (lockstep writer/reader); TLC-enumerated layouts replayed on the parser'),
+    'C10': dict(
+        category='model_checking', design='3/C10',
+        text=('TLC checks the three channel-listing predicates of the LAS writer with the in-place request mutation '
+              '(LasWrite.tla) against the abstract listing X + requested channels for every frame array (<= 3/4 channels) '
+              'and every request including foreign names; TLC evaluates the abstract listing on that whole domain '
+              '(LasWriteTable.tla) and every row is replayed on write_curve_and_array_section_to_las with concrete numpy '
+              'arrays (10 dtypes, dimensions, 5 reductions, widths, decimal formats, extreme values); the text is cut up by an '
+              'independent splitter (three listings, units, every printed value against the exact rational reduction within '
+              'half a unit of the last decimal) and read back through LASRead.'),
+        note=('Numeric closeness is enumeration in the harness with an exact-rational oracle (TLC has no reals); names without '
+              'spaces; |integers| <= 2^53; field width >= 2.'),
+        technique='TLA+ spec + TLC model checking; TLC oracle table replayed on the writer; independent splitter + LASRead round trip'),
 }
 
 NOT_YET = 'check not built yet in this session; planned per DESIGN.md section 3'
